@@ -206,6 +206,24 @@ REG['C07'] = dict(
     'kinds, schedule, fired faults, units drawn); non-trivial = two builds '
     'or two histories compared')
 
+REG['C09'] = dict(
+    oracle='c09', profiles=[('stress', 3, None), ('tv', 1, None)],
+    quick=4000, thorough=150000,
+    vacuity=['flag_checks', 'lewis_checks', 'force_samples', 'bending_samples',
+             'contact_samples', 'role_MatingMaster', 'role_MatingSlave',
+             'negative_reference_torque', 'F_MISSINGDATA_expected',
+             'F_MISSINGDATA', 'teeth_10-20', 'teeth_101-500', 'teeth_>500',
+             'worm_alpha_14.5', 'worm_alpha_20', 'worm_alpha_25',
+             'worm_alpha_30'],
+    rule='simulated chains of spur / helical / worm stages with every subset '
+    'of optional data, teeth 10..600 (beyond the table end), four worm '
+    'pressure angles, both mating roles, torques of either sign; force, '
+    'bending and contact stress of every gear at every recorded instant '
+    'against the documented formulas (embedded copy of the tables); flags at '
+    'assembly; F-MISSINGDATA must raise ValueError; distinct = (chain kinds, '
+    'schedule, fired faults, teeth classes, worm angles, roles); non-trivial '
+    '= at least one force sample or flag compared')
+
 NOT_APPLICABLE = [
     {'property_id': 'C05',
      'reason': 'stateless function of (value, from-unit, to-unit): no schedule, clock, fault, I/O or history for a simulator to act on; its quantifier is decided by exhaustive enumeration of unit pairs, a different technique (DESIGN.md section 6)'},
